@@ -188,7 +188,7 @@ def iter_find_needle(
                 break
             offset = pos + p - len(saved)
             yield offset
-        saved = d[-overlap_len:]
+        saved = d[-overlap_len:] if overlap_len else b""
 
 
 def checksum8(text: str) -> int:
